@@ -401,7 +401,7 @@ def judge_congress(c, o):
 
 
 def run_congress(chk, tier):
-    cfgs = ["MC_creplay_quick.cfg", "MC_creplay_ttl.cfg"] if tier == "quick" else ["MC_creplay.cfg", "MC_creplay4.cfg", "MC_creplay_ttl.cfg"]
+    cfgs = ["MC_creplay_quick.cfg", "MC_creplay_quick2.cfg", "MC_creplay_ttl.cfg"] if tier == "quick" else ["MC_creplay.cfg", "MC_creplay4.cfg", "MC_creplay_ttl.cfg"]
     cases = []
     for cfg in cfgs:
         rr = vlib.tlc(SPECD, "SamplingReplay", cfg, timeout=3000)
